@@ -44,24 +44,6 @@ Example thread_mirror_trusted_example :
   thread_starts 50 6 [] [10000 + 1 - 5000] [] (10000 + 1 - 5020) true = Some (1, 10000 + 1 - 5000).
 Proof. vm_compute. split; reflexivity. Qed.
 
-(* ================================================================ ExonCorrector.process_events: micro-intron retention (model of C14, Corrector.v) *)
-From IQ Require Corrector.
-Module MicroIntron.
-Import Corrector.
-(* read 100-200 / 300-400 on an isoform with the extra micro-intron 150-153 inside the FIRST read exon: the corrector inserts it;
-   the mirror image (L = 500: read 101-201 / 301-401, micro-intron 348-351 inside the LAST read exon) is left as it is,
-   because `-i-1 in event_map` is only looked up while a read intron i follows *)
-Definition c_first : cin := mkcin [(100, 200); (300, 400)] false true [mkev MES_fake_micro_intron_retention (0, 0) (absent_position, 0)]
-  [(150, 153); (201, 299)] (100, 400) [(150, 153); (201, 299)] [((0, 0), (0, 0))] 6.
-Definition c_last : cin := mkcin [(101, 201); (301, 401)] false true [mkev MES_fake_micro_intron_retention (1, 1) (absent_position, 1)]
-  [(202, 300); (348, 351)] (101, 401) [(202, 300); (348, 351)] [((0, 0), (0, 0))] 6.
-Example microintron_mirror_refuted :
-  correct_assigned_read (strategy_flags St_default_ont) c_first = Ok [(100, 149); (154, 200); (300, 400)] /\
-  correct_assigned_read (strategy_flags St_default_ont) c_last = Ok [(101, 201); (301, 401)] /\
-  rfl 500 [(100, 149); (154, 200); (300, 400)] = [(101, 201); (301, 347); (352, 401)].
-Proof. vm_compute. repeat split; reflexivity. Qed.
-End MicroIntron.
-
 (* ================================================================ categorize_exon_elongation_subtype *)
 (* when the read and the isoform share no split exon inside the scanned range both searches return -1 and Python's split_exons[-1]
    is the LAST split exon on both sides ("Odd case for exon elongation" in the log): not a mirror-symmetric choice *)
@@ -292,3 +274,65 @@ Lemma hypotheses_satisfiable :
 Proof. split; [right; split; discriminate|]. split; [left; reflexivity|]. split; [cbn; lia|]. split; [|split; [|vm_compute; reflexivity]].
   - split; [intros H; discriminate H|]. intros _. repeat constructor; cbn; lia.
   - intros c p Hin Hc Hp. cbn in Hc. assert (c = 1) as -> by lia. destruct Hin as [<-|[<-|[]]]; [|congruence]. vm_compute. split; discriminate. Qed.
+
+(* categorize_exon_elongation_subtype IS its own mirror image whenever the searched ranges contain a common split exon:
+   the left part on the mirrored input = mirror image of the right part *)
+Module ElongationMirror.
+Import Intervals.
+Lemma nthz_rev {A} (l:list A) i d : 0 <= i < Z.of_nat (length l) -> nthz (rev l) i d = nthz l (Z.of_nat (length l) - 1 - i) d.
+Proof. intros H. unfold nthz. rewrite rev_nth by lia. f_equal. lia. Qed.
+Section E.
+Variables (ip rp:list Z) (n:Z).
+Hypothesis Hip : Z.of_nat (length ip) = n.
+Hypothesis Hrp : Z.of_nat (length rp) = n.
+Definition midx (r:Z) : Z := if r =? -1 then -1 else n - 1 - r.
+Lemma both_one_rev i : 0 <= i < n -> both_one (rev ip) (rev rp) i = both_one ip rp (n - 1 - i).
+Proof. intros H. unfold both_one. rewrite !nthz_rev by lia. rewrite Hip, Hrp. reflexivity. Qed.
+Lemma last_common_range : forall f m r, last_common f ip rp m = r -> r = -1 \/ 0 <= r <= m.
+Proof. induction f as [|f IH]; intros m r H; [cbn in H; lia|]. cbn [last_common] in H. destruct (0 <=? m) eqn:E; [|lia].
+  destruct (both_one ip rp m); [lia|]. apply IH in H. lia. Qed.
+Lemma first_last_common : forall d i f1 f2, Z.of_nat d = n - i -> 0 <= i -> (d <= f1)%nat -> (d <= f2)%nat ->
+  first_common f1 (rev ip) (rev rp) i n = midx (last_common f2 ip rp (n - 1 - i)).
+Proof. induction d as [|d IH]; intros i f1 f2 Hd Hi H1 H2.
+  - assert (i = n) by lia. subst i. replace (n - 1 - n) with (-1) by lia.
+    destruct f1; destruct f2; cbn [first_common last_common]; replace (n <? n) with false by lia; reflexivity.
+  - destruct f1 as [|f1]; [lia|]. destruct f2 as [|f2]; [lia|]. cbn [first_common last_common].
+    replace (i <? n) with true by lia. replace (0 <=? n - 1 - i) with true by lia. rewrite both_one_rev by lia.
+    destruct (both_one ip rp (n - 1 - i)); [unfold midx; replace (n - 1 - i =? -1) with false by lia; lia|].
+    replace (n - 1 - i - 1) with (n - 1 - (i + 1)) by lia. apply IH; lia. Qed.
+End E.
+
+Lemma pyidx_rfl L (l:list iv) i : 0 <= i < Z.of_nat (length l) -> pyidx (rfl L l) (Z.of_nat (length l) - 1 - i) = option_map (rf L) (pyidx l i).
+Proof. intros H. unfold pyidx. rewrite rfl_length.
+  replace ((0 <=? Z.of_nat (length l) - 1 - i) && (Z.of_nat (length l) - 1 - i <? Z.of_nat (length l))) with true by lia.
+  replace ((0 <=? i) && (i <? Z.of_nat (length l))) with true by lia.
+  rewrite (nth_error_nth' _ (0, 0)) by (rewrite rfl_length; lia). rewrite (nth_error_nth' l (0, 0)) by lia. cbn [option_map]. f_equal.
+  rewrite MirrorProofs.nth_rfl0 by lia. f_equal. f_equal. lia. Qed.
+
+Theorem elong_left_is_mirror_of_elong_right E L sx ip rp ir rr read_last :
+  let n := Z.of_nat (length sx) in
+  Z.of_nat (length ip) = n -> Z.of_nat (length rp) = n -> 0 <= snd ir <= n -> 0 <= snd rr <= n ->
+  last_common (Datatypes.S (length sx)) ip rp (Z.min (snd ir - 1) (snd rr - 1)) <> -1 ->
+  elong_left E (rfl L sx) (rev ip) (rev rp) (n - snd ir, n - fst ir) (n - snd rr, n - fst rr) (rf L read_last) =
+  option_map (map (mev 0 L)) (elong_right E sx ip rp ir rr read_last).
+Proof. intros n Hip Hrp Hir Hrr Hc. unfold elong_left, elong_right. cbv zeta. rewrite rfl_length. cbn [fst snd]. fold n.
+  set (m := Z.min (snd ir - 1) (snd rr - 1)) in *.
+  replace (Z.max (n - snd ir) (n - snd rr)) with (n - 1 - m) by (unfold m; lia).
+  assert (Hm: -1 <= m < n) by (unfold m; lia).
+  rewrite (first_last_common ip rp n Hip Hrp (Z.to_nat (m + 1)) (n - 1 - m) (length sx) (Datatypes.S (length sx))) by (unfold n in *; lia).
+  replace (n - 1 - (n - 1 - m)) with m by lia.
+  set (cl := last_common (Datatypes.S (length sx)) ip rp m) in *.
+  destruct (last_common_range ip rp _ _ _ (eq_refl cl)) as [Hcl|Hcl]; [contradiction|].
+  unfold midx. replace (cl =? -1) with false by lia.
+  unfold n at 1. rewrite pyidx_rfl by (fold n; lia).
+  destruct (pyidx sx cl) as [x|]; [|reflexivity]. cbn [option_map]. rewrite py_overlaps_mirror.
+  destruct (negb (py_overlaps read_last x)); [reflexivity|].
+  unfold rf. cbn [fst snd]. replace (L + 1 - snd x - (L + 1 - snd read_last)) with (snd read_last - snd x) by lia.
+  replace (n - 1 - cl =? n - snd ir) with (cl =? snd ir - 1) by lia.
+  set (extra := snd read_last - snd x).
+  destruct (cl =? snd ir - 1); cbn [option_map].
+  - f_equal. rewrite map_app. f_equal.
+    + destruct (Z.abs extra <=? minor_ext E); [|reflexivity]. destruct (Z.abs extra <=? edelta E); reflexivity.
+    + destruct (extra >? minor_ext E); [reflexivity|]. destruct (extra >? edelta E); reflexivity.
+  - destruct ((minor_ext E >=? extra) && (extra >? edelta E)); reflexivity. Qed.
+End ElongationMirror.
